@@ -30,10 +30,27 @@ MEDIAS = ["application/json", "application/vnd.x+json", "application/json; chars
           "application/octet-stream", "none", "xml-then-json", "component-ref", "component-ref-described"]
 RKINDS = ["model_ref", ["array", "model_ref"], "str", "int", "num", "bool", "date", "datetime", "uuid", "enum_str", "enum_int",
           ["union", "model_ref", "model2"], ["union", "int", "str"], "inline_object", "any", "no-schema", ["array", "int"],
-          ["array", "date"], ["nullable", "model_ref", "oneof"], "file", "null"]
+          ["array", "date"], ["nullable", "model_ref", "oneof"], "file", "null",
+          # unions whose members interact: closed models sharing a required key (the reply matches the LATER member), primitive members listed
+          # before a constructed member that comes last, and the reverse
+          "closed-cat-or-dog", "str-then-model", "model-then-str", "int-then-array-model", "int-then-date"]
+
+
+SPECIAL = {
+    "closed-cat-or-dog": (lambda c: (c.setdefault("Cat", {"type": "object", "additionalProperties": False, "required": ["id", "meow"], "properties": {"id": {"type": "integer"}, "meow": {"type": "string"}}}),
+                                     c.setdefault("Dog", {"type": "object", "additionalProperties": False, "required": ["id", "bark"], "properties": {"id": {"type": "integer"}, "bark": {"type": "string"}}}),
+                                     {"oneOf": [{"$ref": "#/components/schemas/Cat"}, {"$ref": "#/components/schemas/Dog"}]})[2],
+                          [("branch0", {"id": 1, "meow": "m"}), ("branch1", {"id": 2, "bark": "w"})]),
+    "str-then-model": (lambda c: {"oneOf": [{"type": "string"}, K.schema("model_ref", c)]}, [("branch0", "just a label"), ("branch1", {"z": 1})]),
+    "model-then-str": (lambda c: {"oneOf": [K.schema("model_ref", c), {"type": "string"}]}, [("branch0", {"z": 1}), ("branch1", "just a label")]),
+    "int-then-array-model": (lambda c: {"oneOf": [{"type": "integer"}, {"type": "array", "items": K.schema("model_ref", c)}]}, [("branch0", 7), ("branch1", [{"z": 1}])]),
+    "int-then-date": (lambda c: {"anyOf": [{"type": "integer"}, {"type": "string", "format": "date"}]}, [("branch0", 7), ("branch1", "2020-01-02")]),
+}
 
 
 def _schema(kind, comps):
+    if isinstance(kind, str) and kind in SPECIAL:
+        return SPECIAL[kind][0](comps)
     if kind == "no-schema":
         return None
     if kind == "model2":
@@ -45,6 +62,8 @@ def _schema(kind, comps):
 
 
 def _samples(kind):
+    if isinstance(kind, str) and kind in SPECIAL:
+        return SPECIAL[kind][1]
     if kind == "no-schema":
         return [("value", {"x": 1})]
     if kind == "file":
@@ -59,7 +78,7 @@ def _samples(kind):
 def kname(kind):
     if isinstance(kind, list) and kind[0] == "union" and "model2" in kind:
         return "union(model_ref,model2)"
-    return kind if kind in ("no-schema", "file", "model2") else K.kstr(kind)
+    return kind if isinstance(kind, str) and (kind in ("no-schema", "file", "model2") or kind in SPECIAL) else K.kstr(kind)
 
 
 def _response_obj(media, kind, comps, components_responses, name="R"):
@@ -102,6 +121,8 @@ def cases(tier):
             for kind in kinds:
                 if kind == "file" and media not in ("application/octet-stream",):
                     continue
+                if isinstance(kind, str) and kind in SPECIAL and not _eff_media(media).startswith("application/json") and "+json" not in media:
+                    continue      # member-interaction unions: JSON only (text / binary with constructed schemas is a recorded finding)
                 if status in (204,) and media != "none" and tier == "quick" and kind not in ("model_ref", "str"):
                     continue
                 if tier == "quick" and status in (201, 500) and media not in ("application/json", "none", "text/plain", "application/octet-stream"):
@@ -110,7 +131,8 @@ def cases(tier):
                           f"{media}/{kname(kind)}")
     # two responses
     firsts = [(200, "application/json", "model_ref"), (200, "application/json", ["array", "model_ref"]), (200, "none", "no-schema"),
-              (201, "text/plain", "str"), (200, "application/octet-stream", "file"), (200, "application/json", "date")]
+              (201, "text/plain", "str"), (200, "application/octet-stream", "file"), (200, "application/json", "date"),
+              (200, "application/json", "any"), (200, "application/json", "no-schema")]
     seconds = [(404, "application/json", "model2"), (404, "application/json", "model_ref"), (404, "none", "no-schema"),
                (500, "text/plain", "str"), (204, "none", "no-schema"), ("default", "application/json", "model2"),
                ("2XX", "application/json", "model2"), ("abc", "application/json", "model2"), (404, "application/xml", "model2"),
@@ -160,6 +182,13 @@ def _type_ok(kind, parsed, body):
     """'JSON into the model, list or scalar type': the parsed value has the Python shape of the schema kind."""
     if body is None:
         return parsed is None
+    if isinstance(kind, str) and kind in SPECIAL:
+        # the decoded value is a model instance exactly when the body is an object
+        if isinstance(body, dict):
+            return hasattr(parsed, "to_dict") and not isinstance(parsed, dict)
+        if isinstance(body, list):
+            return isinstance(parsed, list) and all(hasattr(x, "to_dict") for x in parsed)
+        return not hasattr(parsed, "to_dict")
     if kind in ("model_ref", "inline_object", "model2"):
         return hasattr(parsed, "to_dict") and not isinstance(parsed, dict)
     if isinstance(kind, list):
